@@ -107,6 +107,11 @@ fn gen_kids(s: &mut Src, depth: usize, budget: &mut usize) -> Vec<GNode> {
                 let v = if s.chance(40) { String::new() } else { gen_string(s, 10) };
                 attrs.push((an, v));
             }
+            if name == "template" && s.chance(100) && !attrs.iter().any(|(k, _)| k == "shadowrootmode") {
+                // a declarative-shadow-root declaration: re-parsed by a sink that does not attach
+                // shadow roots (RcDom), it must stay an ordinary template
+                attrs.push(("shadowrootmode".into(), s.pick(&["open", "closed", "x", "OPEN"]).to_string()));
+            }
             let kids = gen_kids(s, depth + 1, budget);
             out.push(GNode::Elem { name, attrs, kids });
         }
